@@ -896,6 +896,28 @@ Definition pipeline (cfg : config) (ss : streams) (q : cquery) (sched : list act
       final_view (quiesce q (fold_left (do_action q) sched rs0))
   end.
 
+(** the same at an arbitrary point of a run: after [sched], nothing more arrives
+    from the targets; the subscription is made if it has not been yet and
+    everything queued is delivered.  [run_to] is the state reached (with what
+    every target has not yet delivered), [pipeline_at] the client's view then. *)
+Definition settle (q : cquery) (rs : run_state) : run_state :=
+  let rs1 := do_subscribe {| rn_st := rn_st rs; rn_streams := []; rn_subres := rn_subres rs |} q in
+  {| rn_st := drain (rn_st rs1); rn_streams := []; rn_subres := rn_subres rs1 |}.
+
+Definition run_to (cfg : config) (ss : streams) (q : cquery) (sched : list action) : option run_state :=
+  match collector_start cfg with
+  | None => None
+  | Some (managed, cached) =>
+      Some (fold_left (do_action q) sched
+              {| rn_st := initial cached; rn_streams := managed_streams (keys managed) ss; rn_subres := None |})
+  end.
+
+Definition pipeline_at (cfg : config) (ss : streams) (q : cquery) (sched : list action) : view :=
+  match run_to cfg ss q sched with
+  | None => VCollectorDown
+  | Some rs => final_view (settle q rs)
+  end.
+
 (** ONCE subscription (what gnmi_cli -qt once shows): the snapshot, decoded *)
 Definition once_view (st : pstate) (q : cquery) : view :=
   match ps_fault st with
@@ -1096,6 +1118,16 @@ Definition replay_step (f : tstate) (it : item) : tstate :=
   end.
 
 Definition replay (s : list item) : tstate := fold_left replay_step s [].
+
+(** a history of several sessions of one target, as the collector meets it:
+    each earlier session ends at some point (error, EOF, timeout -- whatever it
+    had sent by then is [p]), the manager resets the target, the next session
+    starts *)
+Fixpoint join_sessions (earlier : list (list item)) (last : list item) : list item :=
+  match earlier with
+  | [] => last
+  | p :: r => p ++ IReset :: join_sessions r last
+  end.
 
 (** how the collector presents that state: under the configured target name,
     values as the client library decodes them *)
